@@ -584,7 +584,7 @@ def run(rep):
                 rep.violation('oracle/%s/Re%s' % (type(mobj).__name__, w), '%s.Re%s raised %s at xi=%r t=%r Q2=%r' % (type(mobj).__name__, w, v, xi, pt.t, pt.Q2),
                               dict(model_class=type(mobj).__name__, kw=kw, which='Re' + w, observed=v))
                 continue
-            F = lambda x: float(im(pt, x))  # noqa
+            F = lambda x: 0.0 if x >= 1.0 else float(im(pt, x))  # noqa  (x = 1, an end point the adaptive reference integrator may ask for, is outside the domain (0, 1): GK divides by 1 - eta there; every imaginary part vanishes at x = 1)
             okk, rel, ref, scale, est = oracle_check(F, xi, kind, v, extra)
             rep.case('oracle.gk', (type(mobj).__name__, w, xi, pt.t, pt.Q2), sample=dict(model=type(mobj).__name__, which='Re' + w, xi=xi, t=pt.t, Q2=pt.Q2, code=v, pv_reference=ref, rel=rel))
             record('GK.Re' + w, rel)
@@ -682,7 +682,7 @@ def replay(path):
             sub = float(D.subtraction(mobj, pt))
         else:
             im = getattr(mobj, 'Im' + w)
-            F = lambda x: float(im(pt, x))  # noqa
+            F = lambda x: 0.0 if x >= 1.0 else float(im(pt, x))  # noqa  (x = 1, an end point the adaptive reference integrator may ask for, is outside the domain (0, 1): GK divides by 1 - eta there; every imaginary part vanishes at x = 1)
             v = float(getattr(mobj, 'Re' + w)(pt))
             sub = float(mobj.subtraction(pt))
         extra = -sub if w == 'H' else sub if w == 'E' else 0.
